@@ -280,6 +280,20 @@ func (pv *prover) le(a, b lin, facts []Atom, depth int) bool {
 			}
 		}
 	}
+	// data, err := r.ReadBytes(delim) with err == nil: data ends in delim, so 1 <= len(data)
+	if a.base == nil && b.isLen && a.off <= 1+b.off {
+		if ex, ok := b.base.(*ssa.Extract); ok && ex.Index == 0 {
+			if call, ok := ex.Tuple.(*ssa.Call); ok && nameIn(calleeName(call.Common()), "(*bufio.Reader).ReadBytes", "(*bufio.Reader).ReadString", "(*bufio.Reader).ReadSlice") {
+				for _, at := range facts {
+					if at.Kind == "nil" && at.Pos {
+						if e2, ok := at.X.(*ssa.Extract); ok && e2.Tuple == ssa.Value(call) && e2.Index == 1 {
+							return true
+						}
+					}
+				}
+			}
+		}
+	}
 	// r = rand.Intn(n): r + oa <= b if n - 1 + oa <= b
 	if !a.isLen && depth < 6 {
 		if call, ok := a.base.(*ssa.Call); ok {
